@@ -6,6 +6,7 @@ import Csproto.Bridge.DecoderFuncs
 import Csproto.Bridge.SkipFuncs
 import Csproto.Props.C02Source
 import Csproto.Bridge.EncoderFuncs
+import Csproto.Bridge.PackedEncFuncs
 /- axiom audit for C02 -/
 open Csproto
 #print axioms canon_encVarint
@@ -76,3 +77,8 @@ open Csproto
 -- bool paths of the current source: DecodeBool / More / EncodeBool (the byte for false is stored, whatever the destination held)
 #print axioms Csproto.Bridge.EncoderFuncs.EncodeBool_refines
 #print axioms Csproto.Bridge.DecoderFuncs.DecodeBool_refines
+
+-- a packed WRITER of the current encoder.go (two range loops) refines Enc.step (.packedVarint tag vs)
+#print axioms Csproto.Bridge.PackedEncFuncs.sizes_loop
+#print axioms Csproto.Bridge.PackedEncFuncs.write_loop
+#print axioms Csproto.Bridge.PackedEncFuncs.EncodePackedUInt64_refines
